@@ -149,3 +149,145 @@ Example c04_alignment_end_example :
   alignment_end (Some 100) [(4, 5); (1, 3)] = EPos 100 /\
   alignment_end (Some 2) [(0, 18446744073709551615)] = EErr.
 Proof. vm_compute. repeat split; reflexivity. Qed.
+
+(* ==== format level (second deepening): the theorems above speak of abstract spans; these speak
+   of the records the real readers see.  Models: NV.Index.Formats (generic indexing loop, region
+   query, unmapped query; BAM instance with the span computed by alignment_end from POS and
+   CIGAR) and NV.Index.FormatsVcf (VCF/BCF instance with variant_end of NV.Vcf.Span). ==== *)
+From NV Require Import Text.TextBase Vcf.Values Vcf.Span.
+From NV Require Import Index.Formats Index.FormatsFast Index.FormatsProofs Index.FormatsVcf Index.FormatsVcfProofs.
+
+(* BAM, BAI or CSI: for the index bam::fs::index builds from the file (every geometry), every
+   region with either bound missing or present and in range: Reader::query yields exactly the
+   records on the named reference whose span POS .. POS + (sum of M D N = X lengths) - 1 meets
+   the region, in file order, nothing twice. *)
+Theorem c04_bam_query_equals_scan :
+  forall kd ms d nref l ixs k iv,
+    ordered_f bam_rec b_a b_b 0 l -> Forall bam_pos_ok l ->
+    spans_ok ms d (placed bam_rec bam_ctx b_a b_b l) ->
+    bam_index ms d nref l = Some ixs -> (N.to_nat k < length ixs)%nat ->
+    region_ok ms d iv ->
+    bam_query kd ms d ixs l k iv = QOk (bam_scan l k iv).
+Proof. exact bam_query_equals_scan. Qed.
+Print Assumptions c04_bam_query_equals_scan.
+
+(* the unmapped query: nothing that is not flagged unmapped; a sub-list of the file (file order,
+   nothing twice); and of the unplaced records exactly those flagged unmapped -- for files whose
+   unplaced records come last (coordinate-sorted) *)
+Theorem c04_unmapped :
+  forall kd ms d nref l ixs h0,
+    ordered_f bam_rec b_a b_b h0 l -> bam_index ms d nref l = Some ixs ->
+    unplaced_last bam_rec bam_ctx b_a b_b l ->
+    let res := bam_query_unmapped kd ixs h0 l in
+    Forall (fun x => b_unm x = true) res /\
+    (exists pos, res = filter (fun x => (pos <=? b_a x) && b_unm x) l) /\
+    filter bam_unplaced res = filter (fun x => b_unm x && bam_unplaced x) l.
+Proof. exact bam_query_unmapped_spec. Qed.
+Print Assumptions c04_unmapped.
+
+(* a file without placed records: the answer is the plain scan filter *)
+Theorem c04_unmapped_no_placed :
+  forall kd ixs h0 l,
+    ordered_f bam_rec b_a b_b h0 l -> unmapped_start kd ixs = None ->
+    bam_query_unmapped kd ixs h0 l = filter b_unm l.
+Proof. exact (fmt_query_unmapped_all bam_rec bam_ctx b_a b_b b_unm). Qed.
+Print Assumptions c04_unmapped_no_placed.
+
+(* the executed form is the modelled one *)
+Theorem c04_fmt_query_fast_eq : forall A oa hit kd ms d ixs l k iv,
+  fmt_query_fast A oa hit kd ms d ixs l k iv = fmt_query A oa hit kd ms d ixs l k iv.
+Proof. exact fmt_query_fast_eq. Qed.
+Print Assumptions c04_fmt_query_fast_eq.
+
+(* VCF / BCF, tabix or CSI, any file format version: query = scan with the specification's span
+   whenever noodles' variant_end agrees with the specification on the records of the file *)
+Theorem c04_vcf_query_equals_scan :
+  forall bcf v45 kd ms d nref l ixs k iv,
+    ordered_f vcf_rec v_a v_b 0 l ->
+    spans_ok ms d (placed vcf_rec (vcf_ctx bcf v45) v_a v_b l) ->
+    vcf_index bcf v45 ms d nref l = Some ixs -> (N.to_nat k < length ixs)%nat ->
+    region_ok ms d iv -> max_position ms d <= pos_max ->
+    Forall (span_agrees v45) l ->
+    vcf_query v45 kd ms d ixs l k iv = QOk (vcf_scan v45 l k iv).
+Proof. exact vcf_query_equals_scan. Qed.
+Print Assumptions c04_vcf_query_equals_scan.
+
+(* before VCF 4.5 (INFO END, else REF length) they always agree *)
+Theorem c04_vcf_query_equals_scan_44 :
+  forall bcf kd ms d nref l ixs k iv,
+    ordered_f vcf_rec v_a v_b 0 l ->
+    spans_ok ms d (placed vcf_rec (vcf_ctx bcf false) v_a v_b l) ->
+    vcf_index bcf false ms d nref l = Some ixs -> (N.to_nat k < length ixs)%nat ->
+    region_ok ms d iv -> max_position ms d <= pos_max ->
+    vcf_query false kd ms d ixs l k iv = QOk (vcf_scan false l k iv).
+Proof. exact vcf_query_equals_scan_44. Qed.
+Print Assumptions c04_vcf_query_equals_scan_44.
+
+(* VCF 4.5 (REF, INFO SVLEN per allele kind, FORMAT LEN): the excluded class is exactly the class
+   of the known findings vcf45-svlen-...: records with a non-missing INFO SVLEN value *)
+Theorem c04_vcf_query_equals_scan_45 :
+  forall bcf kd ms d nref l ixs k iv,
+    ordered_f vcf_rec v_a v_b 0 l ->
+    spans_ok ms d (placed vcf_rec (vcf_ctx bcf true) v_a v_b l) ->
+    vcf_index bcf true ms d nref l = Some ixs -> (N.to_nat k < length ixs)%nat ->
+    region_ok ms d iv -> max_position ms d <= pos_max ->
+    Forall (fun x => has_svlen x = false) l ->
+    vcf_query true kd ms d ixs l k iv = QOk (vcf_scan true l k iv).
+Proof. exact vcf_query_equals_scan_45. Qed.
+Print Assumptions c04_vcf_query_equals_scan_45.
+
+(* ... and in that class the statement fails, both ways (known findings): a <DEL> with SVLEN=113
+   at POS 590024 ends at 590137 per the specification, noodles indexes and filters 590136, so the
+   point query 590137 loses it; an <INS> with SVLEN=3300 at 13000 is returned for 13041-16317 *)
+Definition c04_del45 : vcf_rec :=
+  mkvcf 0 (Build_span_in 590024 1 None (Some (Some (VIntArr [Some (Zpos 113)]))) None) [AltDel] 10 20.
+Definition c04_ins45 : vcf_rec :=
+  mkvcf 0 (Build_span_in 13000 1 None (Some (Some (VIntArr [Some (Zpos 3300)]))) None) [AltIns] 10 20.
+
+Theorem c04_vcf45_svlen_refuted :
+  (exists ixs, vcf_index true true 14 5 1 [c04_del45] = Some ixs /\
+     vcf_query true Binned 14 5 ixs [c04_del45] 0 (Some 590137, Some 590137) = QOk [] /\
+     vcf_scan true [c04_del45] 0 (Some 590137, Some 590137) = [c04_del45]) /\
+  (exists ixs, vcf_index true true 14 5 1 [c04_ins45] = Some ixs /\
+     vcf_query true Binned 14 5 ixs [c04_ins45] 0 (Some 13041, Some 16317) = QOk [c04_ins45] /\
+     vcf_scan true [c04_ins45] 0 (Some 13041, Some 16317) = []).
+Proof. split; eexists; (split; [reflexivity|]); split; vm_compute; reflexivity. Qed.
+Print Assumptions c04_vcf45_svlen_refuted.
+
+(* bgzipped VCF + tabix: the index lists the names in order of first appearance; a region on a
+   contig without records is refused although the scan answer is empty (known finding
+   vcf-tabix-query-on-contig-without-records-is-an-error; QOk [] once the switch is flipped) *)
+Theorem c04_tabix_contig_without_records :
+  forall v45 ixs l c iv,
+    (forall x, In x l -> v_id x <> c) ->
+    tabix_query v45 ixs l c iv = (if tabix_empty_contig_repaired then QOk [] else QInvalid) /\
+    vcf_scan v45 l c iv = [].
+Proof. exact tabix_query_contig_without_records. Qed.
+Print Assumptions c04_tabix_contig_without_records.
+
+(* non-vacuity: a two-reference BAM file, a long read (N operation) before a short one, an
+   unplaced tail *)
+Definition c04_bam_file : list bam_rec :=
+  [ mkbam (Some 0) (Some 20000) [(4, 5); (0, 50); (3, 300000); (0, 51)] false 100 200;
+    mkbam (Some 0) (Some 20050) [(0, 10)] true 200 300;
+    mkbam (Some 1) (Some 7) [] false 300 400;
+    mkbam None None [] true 400 500;
+    mkbam None None [] false 500 600 ].
+
+Example c04_bam_example :
+  exists ixs, bam_index 14 5 2 c04_bam_file = Some ixs /\
+    bam_query Linear 14 5 ixs c04_bam_file 0 (Some 320000, None)
+      = QOk [mkbam (Some 0) (Some 20000) [(4, 5); (0, 50); (3, 300000); (0, 51)] false 100 200] /\
+    bam_query_unmapped Linear ixs 50 c04_bam_file = [mkbam None None [] true 400 500] /\
+    bam_query_unmapped Binned ixs 50 c04_bam_file = [mkbam None None [] true 400 500].
+Proof. eexists. split; [reflexivity|]. vm_compute. repeat split; reflexivity. Qed.
+
+(* the reading step as csi::io::Query performs it for ANY chunk list (kind bamc ties
+   chunk_read_eof to the real reader): a chunk whose end lies beyond the end of the data ends the
+   whole query; when no chunk end exceeds the offset after the last record -- ends of index chunks
+   are ends of records -- it is the reading the theorems above use *)
+Theorem c04_chunk_read_eof_eq :
+  forall A oa eof cs l,
+    Forall (fun c => cend c <= eof) cs -> chunk_read_eof A oa eof cs l = chunk_read_f A oa cs l.
+Proof. exact chunk_read_eof_eq. Qed.
+Print Assumptions c04_chunk_read_eof_eq.
